@@ -438,6 +438,56 @@ def _case_variants(code, is_bytes):
     return sorted(c for c in cands if probe.fullmatch(chr(c)))
 
 
+_CATEGORY_RANGES = {}
+
+
+def _category_ranges(cat, is_bytes):
+    """a character category (space, digit, word and their negations) as the list of code point ranges CPython's engine
+    accepts for it"""
+    from re import _constants as C
+    key = (str(cat), is_bytes)
+    if key not in _CATEGORY_RANGES:
+        esc = {C.CATEGORY_SPACE: r"\s", C.CATEGORY_NOT_SPACE: r"\S", C.CATEGORY_DIGIT: r"\d", C.CATEGORY_NOT_DIGIT: r"\D",
+               C.CATEGORY_WORD: r"\w", C.CATEGORY_NOT_WORD: r"\W"}.get(cat)
+        if esc is None:
+            raise NotImplementedError("BudgetPattern: category %s" % (cat,))
+        if is_bytes:
+            probe = re.compile(esc.encode()).match
+            hits = [c for c in range(256) if probe(bytes([c]))]
+        else:
+            probe = re.compile(esc).match
+            hits = [c for c in range(0x110000) if probe(chr(c))]
+        ranges = []
+        for c in hits:
+            if ranges and ranges[-1][1] == c - 1:
+                ranges[-1][1] = c
+            else:
+                ranges.append([c, c])
+        _CATEGORY_RANGES[key] = [(C.RANGE, (lo, hi)) for lo, hi in ranges]
+    return _CATEGORY_RANGES[key]
+
+
+def _expand_categories(nodes, is_bytes):
+    """parse tree with every category inside a set written out as ranges (the interpreter knows literals and ranges)"""
+    from re import _constants as C
+    out = []
+    for op, av in nodes:
+        if op is C.IN:
+            items = []
+            for iop, iav in av:
+                items += _category_ranges(iav, is_bytes) if iop is C.CATEGORY else [(iop, iav)]
+            out.append((op, items))
+        elif op is C.BRANCH:
+            out.append((op, (av[0], [_expand_categories(list(alt), is_bytes) for alt in av[1]])))
+        elif op is C.SUBPATTERN:
+            out.append((op, (av[0], av[1], av[2], _expand_categories(list(av[3]), is_bytes))))
+        elif op in (C.MAX_REPEAT, C.MIN_REPEAT):
+            out.append((op, (av[0], av[1], _expand_categories(list(av[2]), is_bytes))))
+        else:
+            out.append((op, av))
+    return out
+
+
 def _fold_case(nodes, is_bytes):
     """parse tree of an IGNORECASE pattern rewritten so that the case-sensitive interpreter matches it: a literal
     becomes the set of its case variants"""
@@ -516,7 +566,7 @@ def _make_budget_pattern():
             self.flags = compiled.flags
             self.groups = compiled.groups
             self.groupindex = dict(compiled.groupindex)
-            nodes = list(_parser.parse(pattern, compiled.flags & re.IGNORECASE))
+            nodes = _expand_categories(list(_parser.parse(pattern, compiled.flags & re.IGNORECASE)), self.is_bytes)
             _check(nodes)
             if compiled.flags & re.IGNORECASE:
                 nodes = _fold_case(nodes, self.is_bytes)
@@ -670,17 +720,33 @@ def validate_budget_patterns(patterns, maxlen=4):
                 for tup in itertools.product(range(len(alphabet)), repeat=ln):
                     texts.append(alphabet[0:0].join(alphabet[j:j + 1] for j in tup))
         for s in texts:
-            for meth in ("match", "search"):
-                a, b = _sig(getattr(real, meth)(s)), _sig(getattr(mine, meth)(s))
-                assert a == b, (site, meth, s, a, b)
-            a, b = [_sig(m) for m in real.finditer(s)], [_sig(m) for m in mine.finditer(s)]
-            assert a == b, (site, "finditer", s, a, b)
-            count += 3
+            try:
+                for meth in ("match", "search"):
+                    a, b = _sig(getattr(real, meth)(s)), _sig(getattr(mine, meth)(s))
+                    assert a == b, (site, meth, s, a, b)
+                a, b = [_sig(m) for m in real.finditer(s)], [_sig(m) for m in mine.finditer(s)]
+                assert a == b, (site, "finditer", s, a, b)
+                count += 3
+            except DidNotFinish:       # over the budget already on a validation text: left to the queries to report
+                del HANGS[:]
         if site == "headers-end":
             for s, pos in ((b"ab\r\n\r\ncd", 2), (b"ab\r\n\r\ncd", 3), (b"\r\n\r", 1), (b"xx\r", 1)):
                 a, b = _sig(real.search(s, pos)), _sig(mine.search(s, pos))
                 assert a == b, (site, "search+pos", s, pos, a, b)
                 count += 1
+    cls = type(next(iter(patterns.values()))[3])
+    for real, alphabet in ((re.compile(r"(\s*a)+?(\d|\W)?$"), "a 1;\n"), (re.compile(r"[^\s;]+(;|\Z)", re.IGNORECASE), "aA ;\n"),
+                           (re.compile(br"(?:\r+)+?(\n\w?)?$", re.IGNORECASE), b"\r\nxY")):
+        mine = cls(real, "validation")
+        for ln in range(maxlen + 1):
+            for tup in itertools.product(range(len(alphabet)), repeat=ln):
+                s = alphabet[0:0].join(alphabet[j:j + 1] for j in tup)
+                for meth in ("match", "search"):
+                    a, b = _sig(getattr(real, meth)(s)), _sig(getattr(mine, meth)(s))
+                    assert a == b, (real.pattern, meth, s, a, b)
+                a, b = [_sig(m) for m in real.finditer(s)], [_sig(m) for m in mine.finditer(s)]
+                assert a == b, (real.pattern, "finditer", s, a, b)
+                count += 3
     return count
 
 
